@@ -70,6 +70,12 @@ let () =
         let acts, outs = split_bar rest [] in
         let (st, evs) = script_run (catches = "1") (List.map act_of_token acts) (List.map outcome_of_token outs) in
         print_endline (string_of_status st ^ " " ^ String.concat "" (List.map (string_of_event false) evs))
+      | "F" :: fd :: lens :: rest ->
+        (* F <fd> <line lengths, comma or -> | outcomes : one shard output *)
+        let _, outs = split_bar rest [] in
+        let lines = if lens = "-" then [] else List.map (fun x -> zeros (int_of_string x)) (String.split_on_char ',' lens) in
+        let (st, evs) = threaded_file_run (z_of_int (int_of_string fd)) lines (List.map outcome_of_token outs) in
+        print_endline (string_of_status st ^ " " ^ String.concat "" (List.map (string_of_event false) evs))
       | "I" :: tool :: rest ->
         (* I <tool> <seg lens early, comma or -> <seg lens late> | outcomes *)
         let segs, outs = split_bar rest [] in
